@@ -8,9 +8,14 @@ Three implementation-level oracles, all on /repo's current working tree:
                 not panic when pest's whole front end accepts it.
   B (compiles)  a seeded sample of the accepted grammars is derived through the real proc macro in a
                 16-crate cargo workspace; a rustc error is attributed to its grammar by bisection.
-  C (returns)   every rule of every compiled grammar that is statically well-founded
-                (`corpus.analyse`) is run on all short inputs under the runners' 20 s watchdog.
-`tie_wf` (Lean side) relates `corpus.analyse` to the Lean definitions `NoLeftRec`/`Progressing`."""
+  C (returns)   every rule of every compiled grammar that is statically well-founded is run on all
+                short inputs under the runners' 20 s watchdog.  "Well-founded" is decided by the Lean
+                model's `wfCheck` (Lemmas/Termination.lean: `NulOK`/`NoLeftRec`/`Progressing` with computed
+                witnesses, proved sound and proved to imply termination: `C11_terminates_checked`), run
+                through `model_driver`; `corpus.analyse` is a stricter python filter.
+Ties (Lean side): `lean_static` compares `wfCheck` with an independent python implementation of the same
+definitions and with `corpus.analyse`; `tie_wf` runs the model with exactly the theorem's fuel bound on the
+cases of oracle C (never `oof`, same verdict as the implementation)."""
 import concurrent.futures, os, random, re, subprocess, time
 from . import common, suites
 import corpus
@@ -750,9 +755,222 @@ def plan_inputs(g, budget, maxlen):
     return 1, 2
 
 
-def tie_wf(ctx, grammars_wf, grammars_not_wf, cases, impl_lines):
-    """filled in by the Lean side: compares corpus.analyse with the Lean definitions and runs the model with the theorem's fuel bound"""
-    pass
+# ---------------------------------------------------------------------------------------------
+# the Lean side: static well-foundedness as decided by `wfCheck` (Lemmas/Termination.lean, proved
+# sound: `C11_terminates_checked`) and runs of the model with exactly the theorem's fuel
+
+STACKN = {"PEEK", "PEEK_ALL", "POP", "POP_ALL", "DROP"}
+SID = "<skip>"
+PEST_BUILTINS = {"ANY", "SOI", "EOI", "PEEK", "PEEK_ALL", "POP", "POP_ALL", "DROP", "NEWLINE", "ASCII", "ASCII_DIGIT",
+                 "ASCII_NONZERO_DIGIT", "ASCII_BIN_DIGIT", "ASCII_OCT_DIGIT", "ASCII_HEX_DIGIT", "ASCII_ALPHA_LOWER",
+                 "ASCII_ALPHA_UPPER", "ASCII_ALPHA", "ASCII_ALPHANUMERIC", "WHITESPACE", "COMMENT"}
+
+
+def lean_wf_mirror(sx):
+    """Python mirror of `wfCheck (gen g)` on dump_ast's optimized expressions: `nullable` (least fixpoint),
+    `heads` with the pseudo id of the skip type after a nullable prefix of a sequence whose skip flag is not `0`
+    (rule kinds @ and $ give flag `0`), `Progressing` (the body of every unbounded repetition and of `Skipped` non-nullable),
+    `NoLeftRec` (the head graph over rules + skip type is acyclic)."""
+    rules = [(r[1], r[2], r[3]) for r in sx[2:]]
+    names = {n for n, _, _ in rules}
+    flag = {n: ("zero" if k in ("atomic", "compound") else "one" if k == "nonatomic" else "inh") for n, k, _ in rules}
+    nul = {n: False for n in names}
+
+    def nullable(e):
+        k = e[0]
+        if k in ("str", "insens"):
+            return e[1] == "-"
+        if k == "ident":
+            n = e[1]
+            return nul[n] if n in names else (n in STACKN or n in ("SOI", "EOI"))
+        if k in ("peekslice", "pos", "neg", "opt", "rep", "repmax", "skip"):
+            return True
+        if k in ("reponce", "push", "restore"):
+            return nullable(e[1])
+        if k in ("repexact", "repmin", "repminmax"):
+            return int(e[2]) == 0 or nullable(e[1])
+        if k == "seq":
+            return nullable(e[1]) and nullable(e[2])
+        if k == "choice":
+            return nullable(e[1]) or nullable(e[2])
+        return False
+    changed = True
+    while changed:
+        changed = False
+        for n, _, body in rules:
+            if not nul[n] and nullable(body):
+                nul[n] = changed = True
+
+    def heads(e, sk, out):
+        k = e[0]
+        if k == "ident":
+            if e[1] in names:
+                out.add(e[1])
+        elif k in ("pos", "neg", "opt", "push", "restore"):
+            heads(e[1], sk, out)
+        elif k in ("rep", "reponce", "repexact", "repmin", "repmax", "repminmax"):
+            heads(e[1], sk, out)
+            if nullable(e[1]) and sk != "zero":       # a second iteration may run the skip at the same position
+                out.add(SID)
+        elif k == "choice":
+            heads(e[1], sk, out)
+            heads(e[2], sk, out)
+        elif k == "seq":
+            heads(e[1], sk, out)
+            if nullable(e[1]):
+                if sk != "zero":
+                    out.add(SID)
+                heads(e[2], sk, out)
+
+    def reps_ok(e):
+        if not isinstance(e, list):
+            return True
+        if e[0] in ("rep", "reponce", "repmin") and nullable(e[1]):      # unbounded repetitions only
+            return False
+        return all(reps_ok(c) for c in e[1:])
+    progressing = all(reps_ok(b) for _, _, b in rules) and not any(nul.get(s, False) for s in ("WHITESPACE", "COMMENT"))
+    graph = {}
+    for n, _, body in rules:
+        hs = set()
+        heads(body, flag[n], hs)
+        graph[n] = hs
+    graph[SID] = {s for s in ("WHITESPACE", "COMMENT") if s in names}
+    color = {}
+
+    def dfs(n):
+        color[n] = 1
+        for m in graph[n]:
+            if color.get(m) == 1 or (m not in color and dfs(m)):
+                return True
+        color[n] = 2
+        return False
+    cyc = any(n not in color and dfs(n) for n in list(graph))
+    return {"wf": progressing and not cyc, "noleftrec": not cyc, "progressing": progressing, "nul": sorted(n for n in names if nul[n])}
+
+
+def uses_unicode_property(sx):
+    """The model driver has no unicode tables (`uni = fun _ _ => false`): verdicts of such grammars are not compared."""
+    names = {r[1] for r in sx[2:]}
+    found = []
+
+    def walk(e):
+        if isinstance(e, list):
+            if e[0] == "ident" and e[1] not in names and e[1] not in PEST_BUILTINS:
+                found.append(e[1])
+            for c in e[1:]:
+                walk(c)
+    for r in sx[2:]:
+        walk(r[3])
+    return bool(found)
+
+
+def run_driver_lines(sexp_path, lines, nproc=8):
+    chunks = [lines[i::nproc] for i in range(nproc)]
+
+    def run(chunk):
+        if not chunk:
+            return []
+        p = subprocess.run([suites.DRIVER, sexp_path], input="\n".join(chunk) + "\n", capture_output=True, text=True)
+        return p.stdout.splitlines()
+    out = [None] * len(lines)
+    with concurrent.futures.ThreadPoolExecutor(nproc) as ex:
+        for k, res in enumerate(ex.map(run, chunks)):
+            for j, l in enumerate(res):
+                if k + j * nproc < len(out):
+                    out[k + j * nproc] = l
+    return [o if o is not None else "v=missing" for o in out]
+
+
+def lean_static(ctx, compiled, sexp_path):
+    """Static part of the tie.  Returns {gid: driver report}; records
+    * wf-static:lean-vs-python-mirror — `wfCheck` of the Lean model (through `model_driver`, command `wf <gid>`) against an
+      independent python implementation of the same definitions on pest_meta's AST: verdict, the failing hypothesis and the
+      set of nullable rules must agree for every compiled grammar;
+    * wf-static:analyse-implies-lean — the corpus filter `corpus.analyse` (stricter: it ignores rule kinds and also looks at
+      the un-optimized AST) never calls a grammar well-founded that the Lean definitions reject."""
+    suites.ensure_driver()
+    lines = run_driver_lines(sexp_path, [f"wf {g['gid']}" for g in compiled], nproc=4)
+    rep, nd, nimp = {}, 0, 0
+    both = lean_only = neither = 0
+    why = {"noleftrec": 0, "progressing": 0}
+    for g, l in zip(compiled, lines):
+        d = suites.parse_obs(l)
+        rep[g["gid"]] = d
+        if "wf" not in d:
+            ctx.tie_broken("wf-static:lean-vs-python-mirror", {"error": "model_driver did not answer `wf`", "gid": g["gid"], "line": l})
+            nd += 1
+            continue
+        sx = corpus.parse_sexp(g["sexp"])
+        m = lean_wf_mirror(sx)
+        lean_nul = sorted(x for x in d.get("nul", "").split(",") if x and x != "EOI")
+        same = ((d["wf"] == "1") == m["wf"] and (d["noleftrec"] == "1") == m["noleftrec"] and (d["progressing"] == "1") == m["progressing"]
+                and lean_nul == m["nul"] and d.get("nulok") == "1")
+        if not same:
+            nd += 1
+            if nd <= 5:
+                ctx.tie_broken("wf-static:lean-vs-python-mirror", {"gid": g["gid"], "grammar": g["text"][:400], "lean": l, "python": m})
+        a_ok = g.get("wf_reason") is None
+        if a_ok and d["wf"] != "1":
+            nimp += 1
+            if nimp <= 5:
+                ctx.tie_broken("wf-static:analyse-implies-lean", {"gid": g["gid"], "grammar": g["text"][:400], "lean": l, "analyse": "well-founded"})
+        if d["wf"] == "1":
+            both += a_ok
+            lean_only += not a_ok
+        else:
+            neither += 1
+            for k in why:
+                why[k] += d.get(k) == "0"
+    n = len(compiled)
+    ctx.ties["wf-static:lean-vs-python-mirror"] = {"cases": n, "agree": n - nd, "observables": ["wf", "noleftrec", "progressing", "nullable rules"]}
+    ctx.ties["wf-static:analyse-implies-lean"] = {"cases": n, "agree": n - nimp, "observables": ["corpus.analyse is None => wfCheck"]}
+    ctx.coverage.setdefault("distribution", {})["wellfounded_static"] = {
+        "compiled": n, "lean_and_analyse": both, "lean_only(analyse stricter: bounded repetitions in the raw AST, atomic rule kinds)": lean_only,
+        "not_wellfounded": neither, "failing_hypothesis": why}
+    return rep
+
+
+def tie_wf(ctx, compiled, rep, cases, impl_lines, sexp_path):
+    """Dynamic part: every case of a grammar with `wfCheck = true` is run on the Lean model with exactly the fuel of theorem
+    `C11_terminates_checked` (`entryFuel G (wfRank G) |input|`, command `wf <gid> <rule> <entry> <hex>`): the model must
+    never answer `oof` (the theorem, executed), and its verdict (and end offset for `check_partial`) must be the
+    implementation's (the model the theorem speaks about is the code that ran)."""
+    quick = ctx.tier == "quick"
+    by_gid = {g["gid"]: g for g in compiled}
+    uni = {g["gid"]: uses_unicode_property(corpus.parse_sexp(g["sexp"])) for g in compiled}
+    big = {g["gid"] for g in compiled if len(g["rules"]) > 40}     # the rank table is recomputed per case: keep huge grammars few
+    idx = [k for k, c in enumerate(cases) if rep.get(c[0], {}).get("wf") == "1"]
+    rnd = random.Random(ctx.seed * 31 + 11)
+    limit = 1000000 if quick else 3000000
+    bigidx = [k for k in idx if cases[k][0] in big]
+    idx = [k for k in idx if cases[k][0] not in big] + rnd.sample(bigidx, min(len(bigidx), 400))
+    if len(idx) > limit:
+        idx = sorted(rnd.sample(idx, limit))
+    lines = run_driver_lines(sexp_path, [f"wf {cases[k][0]} {cases[k][1]} {cases[k][2]} {corpus.hexs(cases[k][6])}" for k in idx])
+    noof = nbad = ncmp = 0
+    maxfuel = 0
+    for k, l in zip(idx, lines):
+        c = cases[k]
+        mo, io = suites.parse_obs(l), suites.parse_obs(impl_lines[k])
+        maxfuel = max(maxfuel, int(mo.get("fuel", "0") or 0))
+        if mo.get("v") not in ("ok", "fail"):
+            noof += 1
+            if noof <= 5:
+                ctx.tie_broken("wf-fuel:model-never-oof", {"case": {"gid": c[0], "grammar": by_gid[c[0]]["text"][:300], "rule": c[1], "entry": c[2], "input": c[6]},
+                                                           "model": l, "note": "the model ran out of the fuel theorem C11_terminates_checked promises to suffice"})
+            continue
+        if uni[c[0]] or io.get("v") not in ("ok", "fail"):
+            continue
+        ncmp += 1
+        keys = ["v", "end"] if c[2] == "check_partial" else ["v"]
+        if any(mo.get(x) != io.get(x) for x in keys):
+            nbad += 1
+            if nbad <= 5:
+                ctx.tie_broken("wf-fuel:verdict", {"case": {"gid": c[0], "grammar": by_gid[c[0]]["text"][:300], "rule": c[1], "entry": c[2], "input": c[6]},
+                                                   "model": {x: mo.get(x) for x in keys}, "impl": {x: io.get(x) for x in keys}})
+    ctx.ties["wf-fuel:model-never-oof"] = {"cases": len(idx), "agree": len(idx) - noof, "observables": ["v != oof with fuel = entryFuel G (wfRank G) |input|"]}
+    ctx.ties["wf-fuel:verdict"] = {"cases": ncmp, "agree": ncmp - nbad, "observables": ["v", "end (check_partial)"]}
+    ctx.coverage.setdefault("distribution", {})["theorem_fuel"] = {"cases": len(idx), "largest_fuel_bound": maxfuel}
 
 
 # ---------------------------------------------------------------------------------------------
@@ -773,7 +991,7 @@ def check_C11(ctx):
     by_class, by_err, pairs_only = {}, {c: 0 for c in LISTED + ["other"]}, {}
     syntax_errors = accepted = disagreements = judged = nontrivial = 0
     accepted_gs, leftrec_accepted = [], []
-    examples = {}
+    examples, panic_kind, pgen_refuses = {}, {}, {}
     for g in gs:
         o = obs[g["gid"]]
         g["obs"] = o
@@ -795,12 +1013,29 @@ def check_C11(ctx):
             judged += 1
             if classes & set(LISTED):
                 nontrivial += 1
+            if panics:
+                # is the panic pest_meta's report (`unwrap_or_report` / "error parsing"), i.e. the refusal the property means?
+                how = "validator_report" if o["dmsg"].startswith(("grammar error", "error parsing")) else "other_panic"
+                panic_kind[how] = panic_kind.get(how, 0) + 1
+                if how == "other_panic":
+                    panic_kind.setdefault("other_examples", [])
+                    if len(panic_kind["other_examples"]) < 3:
+                        panic_kind["other_examples"].append({"grammar": g["text"][:120], "panic": o["dmsg"][:120]})
             if not panics:
                 disagreements += 1
                 ctx.violations.append({"what": f"generator accepted a grammar pest's validator rejects [{', '.join(sorted(classes))}]",
                                        "case": case, "validator": o["vmsg"], "ntok": o.get("ntok")})
             elif len(ctx.samples) < 3 and classes & set(LISTED) and not any(s["impl"].get("classes") == sorted(classes) for s in ctx.samples):
                 ctx.samples.append({"case": case, "impl": {"derive": "panic", "classes": sorted(classes), "validator": o["vmsg"][:200]}})
+        elif o["full"] == "ok" and o.get("pgen") == "panic":
+            # pest_meta's front end accepts, but pest's own generator (pest_generator::derive_parser, i.e. pest_derive)
+            # panics at macro expansion as well (rule names `self`, `Self`, `crate`, `super`: "cannot be a raw identifier"):
+            # pest does not accept the grammar, so there is no obligation either way; counted.
+            k = "derive_" + o["derive"]
+            pgen_refuses[k] = pgen_refuses.get(k, 0) + 1
+            pgen_refuses.setdefault("examples", [])
+            if len(pgen_refuses["examples"]) < 4:
+                pgen_refuses["examples"].append({"grammar": g["text"][:100], "derive": o["derive"], "panic": o["dmsg"][:100]})
         elif o["full"] == "ok":
             judged += 1
             accepted += 1
@@ -832,7 +1067,8 @@ def check_C11(ctx):
         ctx.tie_broken("corpus-coverage", {"error": "no grammar of the corpus is rejected by pest's validator for: " + ", ".join(missing),
                                            "by_validator_error": by_err})
     dist = {"grammars": len(gs), "by_class": by_class, "by_validator_error": by_err, "pairs_only": pairs_only, "syntax_errors": syntax_errors,
-            "accepted": accepted, "mutation_sources": nsrc,
+            "accepted": accepted, "mutation_sources": nsrc, "refusal_panics": panic_kind,
+            "front_end_accepts_but_pest_generator_panics": pgen_refuses,
             "leftrec_family_accepted_by_validator": {"count": len(leftrec_accepted), "examples": leftrec_accepted[:6]},
             "first_example_per_error": {k: v[:160] for k, v in examples.items()}}
     ctx.coverage["distribution"] = dist
@@ -884,9 +1120,13 @@ def check_C11(ctx):
     open(sexp_path, "w").write("\n".join(g["sexp"] for g in compiled) + "\n")
 
     # ---- oracle C: every parse of a well-founded grammar returns ---------------------------------
-    wf = [g for g in compiled if g["wf_reason"] is None]
-    not_wf = [g for g in compiled if g["wf_reason"] is not None]
+    t0 = time.time()
+    lean = lean_static(ctx, compiled, sexp_path)
+    timing["lean_static_s"] = round(time.time() - t0, 1)
+    wf = [g for g in compiled if lean.get(g["gid"], {}).get("wf") == "1"]
+    not_wf = [g for g in compiled if lean.get(g["gid"], {}).get("wf") != "1"]
     dist["compiled_wellfounded"] = len(wf)
+    dist["compiled_wellfounded_by_corpus_analyse"] = sum(g["wf_reason"] is None for g in compiled)
     dist["compiled_not_wellfounded"] = len(not_wf)
     cap = 2000000 if quick else 6000000
     maxlen = 4 if quick else 5
@@ -948,10 +1188,12 @@ def check_C11(ctx):
         "rejects (derive must panic) or that pest's whole front end accepts (derive must not panic); a grammar is non-trivial when the validator "
         "rejects it for one of the six listed reasons, or when it is accepted and the generator emitted code.  Oracle B compiles a seeded sample of "
         "the accepted grammars through the real derive macro; oracle C runs every rule (parse and check_partial) of the compiled grammars that "
-        "are statically well-founded (corpus.analyse: no rule reaches itself through a nullable prefix, the implicit skip included; no repetition "
-        "or skip rule body may match empty; stack-reading terminals count as nullable) on all inputs up to length "
+        "are statically well-founded (decided by `wfCheck` of the Lean model, proved sound: no rule reaches itself through a nullable prefix, the "
+        "implicit skip included; no unbounded repetition body or skip rule body may match empty; stack-reading terminals count as nullable) on all inputs up to length "
         f"{maxlen} over (a cap of) the grammar's alphabet plus random longer ones, under a 20 s watchdog.  Outside the property: grammars rejected only by "
         "validate_pairs (undefined / redefined rules, pest keywords as rule names: no verdict, counted), generator options other than the defaults, "
         "and accepted grammars that are not well-founded (e.g. `(PEEK_ALL)*`, `!\"x\" ~ a`, non-atomic WHITESPACE bodies with a nullable prefix): "
         "they are compiled but not run.")
-    tie_wf(ctx, wf, not_wf, all_cases, all_lines)
+    t0 = time.time()
+    tie_wf(ctx, compiled, lean, all_cases, all_lines, sexp_path)
+    timing["lean_fuel_s"] = round(time.time() - t0, 1)
